@@ -12,7 +12,10 @@ import (
 	"net/http/httptest"
 	"net/url"
 	"os"
+	"reflect"
+	"runtime"
 	"sort"
+	"sync"
 	"strings"
 	"time"
 
@@ -52,6 +55,9 @@ type SOp struct {
 	IsRestart bool `json:"is_restart,omitempty"`
 	// evict the whole dimensions cache to disk (VerifEvict); the next use of a dimension reloads it
 	IsEvict bool `json:"is_evict,omitempty"`
+	// put only: the write-back of the dimensions cache runs in the middle of this Put (when the segment of the
+	// series is created or loaded), repeated until every dimension of the series has been saved
+	Tick bool `json:"tick,omitempty"`
 }
 
 type StoreIn struct {
@@ -62,9 +68,20 @@ type StoreIn struct {
 	Hide      []string `json:"hide,omitempty"`       // config HideApplications
 }
 
+// ConcIn: concurrent Insert/Delete on one dimension
+type ConcIn struct {
+	Init      []string `json:"init"`
+	Ins       []string `json:"ins"`
+	Dels      []string `json:"dels"`
+	Rounds    int      `json:"rounds"`
+	Inserters int      `json:"inserters"`
+	Deleters  int      `json:"deleters"`
+}
+
 type Input struct {
 	Dim   *DimIn   `json:"dim,omitempty"`
 	Store *StoreIn `json:"store,omitempty"`
+	Conc  *ConcIn  `json:"conc,omitempty"`
 }
 
 // ---------- printers ----------
@@ -178,6 +195,64 @@ func flatten(n *tree.VerifNode, prefix string, out *[][2]interface{}) {
 	}
 }
 
+func dimNamesOf(k *storage.Key) []string {
+	v := reflect.ValueOf(k).Elem().FieldByName("labels")
+	var out []string
+	it := v.MapRange()
+	for it.Next() {
+		out = append(out, it.Key().String()+":"+it.Value().String())
+	}
+	return out
+}
+
+// tick state: armed by a put op, fired from inside Storage.Put through the segments/trees cache constructors
+type tickState struct {
+	armed     bool
+	want      []string
+	recording bool
+	saved     map[string]bool
+	fired     int
+}
+
+func installTick(s *storage.Storage, ts *tickState) {
+	s.VerifWrapCaches(func(cacheName, key string) {
+		if ts.recording && cacheName == "dimensions" {
+			ts.saved[key] = true
+		}
+	})
+	dc := s.VerifCache("dimensions")
+	fire := func() {
+		if !ts.armed {
+			return
+		}
+		ts.armed = false
+		ts.recording, ts.saved = true, map[string]bool{}
+		// what the periodic write-back task does to the dimensions cache, at this very moment; one pass hands over
+		// only what the saver goroutine can take, so repeat until every dimension of the series went to disk
+		for i := 0; i < 2000; i++ {
+			dc.WriteBack()
+			dc.VerifBarrier()
+			all := true
+			for _, n := range ts.want {
+				if !ts.saved[n] {
+					all = false
+				}
+			}
+			if all {
+				break
+			}
+		}
+		ts.recording = false
+		ts.fired++
+	}
+	for _, name := range []string{"segments", "trees"} {
+		c := s.VerifCache(name)
+		origNew, origFrom := c.New, c.FromBytes
+		c.New = func(k string) interface{} { fire(); return origNew(k) }
+		c.FromBytes = func(k string, v []byte) (interface{}, error) { fire(); return origFrom(k, v) }
+	}
+}
+
 func runStore(in *StoreIn) (res lib.Result) {
 	dir, err := os.MkdirTemp("/tmp", "keys-harness-")
 	if err != nil {
@@ -192,7 +267,8 @@ func runStore(in *StoreIn) (res lib.Result) {
 	if err != nil {
 		return lib.Result{Crash: "storage.New: " + err.Error()}
 	}
-	s.VerifWrapCaches(nil)
+	ts := &tickState{}
+	installTick(s, ts)
 	defer func() { s.Close() }()
 	defer func() {
 		if r := recover(); r != nil {
@@ -213,7 +289,7 @@ func runStore(in *StoreIn) (res lib.Result) {
 			if err != nil {
 				return lib.Result{Crash: "storage.New after Close: " + err.Error()}
 			}
-			s.VerifWrapCaches(nil)
+			installTick(s, ts)
 			opsC = append(opsC, "SRestart")
 			nrestart++
 			continue
@@ -252,6 +328,9 @@ func runStore(in *StoreIn) (res lib.Result) {
 		t.Insert([]byte(o.Stack), o.Count)
 		unix := int64(baseUnix) + int64(o.Era)*1000000 + int64(o.Slot)*10
 		st := time.Unix(unix, 0)
+		if o.Tick {
+			ts.armed, ts.want = true, dimNamesOf(k)
+		}
 		if retained && o.Era == 0 {
 			reingest++
 		}
@@ -259,6 +338,7 @@ func runStore(in *StoreIn) (res lib.Result) {
 			SpyName: "verif", SampleRate: 100}); err != nil {
 			return lib.Result{Crash: "Put: " + err.Error()}
 		}
+		ts.armed = false
 		opsC = append(opsC, fmt.Sprintf("SPut %s %s %d %d", bs(o.Put), bs(o.Stack), o.Count, unix))
 		nput++
 	}
@@ -352,12 +432,101 @@ func runStore(in *StoreIn) (res lib.Result) {
 		}
 	}
 	return lib.Result{Coq: coq, NonTrivial: nput >= 3 && maxTags >= 2,
-		Feat: map[string]interface{}{"kind": "store", "puts": nput, "deletes": ndel, "retention_passes": nret, "restarts": nrestart, "evictions": nevict, "max_series_key_len": maxSeriesKey, "hidden_apps": len(in.Hide),
+		Feat: map[string]interface{}{"kind": "store", "puts": nput, "deletes": ndel, "retention_passes": nret, "restarts": nrestart, "evictions": nevict, "writeback_inside_put": ts.fired, "max_series_key_len": maxSeriesKey, "hidden_apps": len(in.Hide),
 			"old_era_puts_after_retention": reingest, "selectors": len(in.Selectors),
 			"max_selector_tags": maxTags, "special_value_chars": special}}
 }
 
+func runConc(in *ConcIn) lib.Result {
+	finals := map[string][]dimension.Key{}
+	var order []string
+	var mu sync.Mutex
+	crash := ""
+	for round := 0; round < in.Rounds; round++ {
+		d := dimension.New()
+		for _, k := range in.Init {
+			d.Insert(dimension.Key(k))
+		}
+		start := make(chan struct{})
+		var wg sync.WaitGroup
+		work := func(keys []string, n, j int, f func(dimension.Key)) {
+			defer wg.Done()
+			defer func() {
+				if r := recover(); r != nil {
+					mu.Lock()
+					crash = fmt.Sprintf("Dimension panicked under concurrent Insert/Delete: %v", r)
+					mu.Unlock()
+				}
+			}()
+			<-start
+			for i := j; i < len(keys); i += n {
+				f(dimension.Key(keys[i]))
+				runtime.Gosched()
+			}
+		}
+		for j := 0; j < in.Inserters; j++ {
+			wg.Add(1)
+			go work(in.Ins, in.Inserters, j, d.Insert)
+		}
+		for j := 0; j < in.Deleters; j++ {
+			wg.Add(1)
+			go work(in.Dels, in.Deleters, j, d.Delete)
+		}
+		close(start)
+		wg.Wait()
+		if crash != "" {
+			return lib.Result{Crash: crash}
+		}
+		ks := d.VerifKeys()
+		sig := ""
+		for _, k := range ks {
+			sig += string(k) + "\x00"
+		}
+		if _, ok := finals[sig]; !ok {
+			finals[sig] = ks
+			order = append(order, sig)
+		}
+	}
+	fs := make([]string, len(order))
+	for i, sg := range order {
+		fs[i] = keyList(finals[sg])
+	}
+	coq := "CConc " + strList(in.Init) + " " + strList(in.Ins) + " " + strList(in.Dels) + " " + lib.List(fs)
+	return lib.Result{Coq: coq, NonTrivial: in.Inserters >= 2 && in.Deleters >= 1,
+		Feat: map[string]interface{}{"kind": "conc", "rounds": in.Rounds, "inserters": in.Inserters, "deleters": in.Deleters,
+			"distinct_finals": len(order)}}
+}
+
+func genConc(r *rand.Rand) Input {
+	c := &ConcIn{Rounds: 300, Inserters: lib.Range(r, 2, 6), Deleters: lib.Range(r, 1, 3)}
+	n := lib.Range(r, 20, 50)
+	for i := 0; i < n; i++ {
+		c.Init = append(c.Init, fmt.Sprintf("k%03d", 2*i))
+	}
+	for i := 0; i < n; i++ { // new keys between and after the initial ones
+		if lib.Chance(r, 0.7) {
+			c.Ins = append(c.Ins, fmt.Sprintf("k%03d", 2*i+1))
+		}
+	}
+	for i := 0; i < n/2; i++ { // deleted keys are small: they sort before most insert positions
+		if lib.Chance(r, 0.8) {
+			c.Dels = append(c.Dels, fmt.Sprintf("k%03d", 2*i))
+		}
+	}
+	r.Shuffle(len(c.Ins), func(i, j int) { c.Ins[i], c.Ins[j] = c.Ins[j], c.Ins[i] })
+	if c.Ins == nil {
+		c.Ins = []string{"k999"}
+	}
+	if c.Dels == nil {
+		c.Dels = []string{"k000"}
+	}
+	return Input{Conc: c}
+}
+
 func run(in Input) lib.Result {
+	if in.Conc != nil {
+		return runConc(in.Conc)
+	}
 	if in.Dim != nil {
 		return runDim(in.Dim)
 	}
@@ -1026,8 +1195,39 @@ func genDimLong(r *rand.Rand) Input {
 	return Input{Dim: d}
 }
 
+// the write-back of the dimensions cache lands inside the Put of a series that is new to its dimensions (a fresh
+// tag value), right after a restart (so the cache holds only this Put's dimensions); nothing touches those
+// dimensions afterwards; restart or eviction; then the selectors on that tag
+func genStoreTick(r *rand.Rand) Input {
+	app := lib.Pick(r, []string{"app", "svc.api"})
+	in := &StoreIn{}
+	hosts := []string{"h1", "h2", "h3:9090", "h4/x.y"}
+	nb := lib.Range(r, 1, 2)
+	for i := 0; i < nb; i++ {
+		in.Ops = append(in.Ops, SOp{Put: fmt.Sprintf("%s{env=prod,host=%s}", app, hosts[i]), Stack: fmt.Sprintf("s%d", i), Count: uint64(1 + i), Slot: i})
+	}
+	in.Ops = append(in.Ops, SOp{Put: "other{env=prod}", Stack: "so", Count: 7, Slot: 3})
+	in.Ops = append(in.Ops, SOp{IsRestart: true})
+	nh := hosts[nb]
+	in.Ops = append(in.Ops, SOp{Put: fmt.Sprintf("%s{env=prod,host=%s}", app, nh), Stack: "snew", Count: 30, Slot: 5, Tick: true})
+	if lib.Chance(r, 0.5) {
+		in.Ops = append(in.Ops, SOp{IsRestart: true})
+	} else {
+		in.Ops = append(in.Ops, SOp{IsEvict: true})
+	}
+	in.Selectors = []string{app, app + "{env=prod}", fmt.Sprintf("%s{host=%s}", app, nh), fmt.Sprintf("%s{env=prod,host=%s}", app, nh),
+		fmt.Sprintf("%s{host=%s,env=prod}", app, nh), fmt.Sprintf("%s{host=h1}", app), "other", "other{env=prod}"}
+	in.ValueKeys = []string{"host", "env"}
+	in.DimNames = []string{"__name__:" + app, "env:prod", "host:" + nh}
+	return Input{Store: in}
+}
+
 func gen(r *rand.Rand, idx int, tier string) Input {
 	switch {
+	case idx%40 == 8:
+		return genStoreTick(r)
+	case idx%100 == 50:
+		return genConc(r)
 	case idx%40 == 4:
 		return genStoreLong(r)
 	case idx%40 == 6:
